@@ -293,6 +293,30 @@ func runCase(c Case) *h.Outcome {
 		}
 		wg.Wait()
 		results = append(results, res...)
+		// clause (b), second half: after a rejection both parties are ready for
+		// further updates.  Checked right away when nothing else ran concurrently
+		// and no request has timed out so far.
+		if len(g) == 1 && res[0].kind == "rejected" && !sawTimeout {
+			pr.Env.Quiesce(5*time.Millisecond, sim.HangLimit)
+			s := c.Steps[g[0]]
+			for i := 0; i < 2; i++ {
+				if ph := chans[s.Chan][i].Phase(); ph != channel.Acting {
+					return fail("not-ready-after-reject", "step %d: after the rejected update party %d is in phase %v instead of Acting", g[0], i, ph)
+				}
+			}
+			o.Class("ready-after-reject-checked")
+		}
+		// a proposal refused by the proposer's own machine because of its phase,
+		// although the channel is idle, not final and nothing has timed out, means
+		// the party was not ready for a further update
+		for _, r := range res {
+			if r.kind == "local" && !sawTimeout && len(g) == 1 && r.err != nil && bytes.Contains([]byte(r.err.Error()), []byte("phase")) {
+				st := chans[c.Steps[r.step].Chan][c.Steps[r.step].By].State()
+				if !st.IsFinal {
+					return fail("not-ready-for-update", "step %d: Update was refused by the proposer's own machine (%v) although its channel is idle and not final", r.step, r.err)
+				}
+			}
+		}
 	}
 	if !pr.Env.Quiesce(30*time.Millisecond, sim.HangLimit) {
 		return fail("harness", "world did not become quiet")
